@@ -132,55 +132,74 @@ Definition auto_layout (eps : Q) (tw : option Q) (avail tmin tmax ths : Q) (cols
   end.
 
 (* ------------------------------------------------------------------------------------- correspondence *)
-Definition out_eqb (a b : option (Q * list Q)) : bool :=
+(* comparisons up to a tolerance: 0 for direct calls with exact rationals, > 0 for renders (floats) *)
+Definition close (tol a b : Q) : bool := Qle_bool (a - b) tol && Qle_bool (b - a) tol.
+Definition leq (tol a b : Q) : bool := Qle_bool a (b + tol).
+Fixpoint qlist_close (tol : Q) (a b : list Q) : bool :=
   match a, b with
-  | Some (w, l), Some (w', l') => Qeq_bool w w' && qlist_eqb l l'
+  | [], [] => true
+  | x :: a', y :: b' => close tol x y && qlist_close tol a' b'
+  | _, _ => false
+  end.
+
+Definition out_close (tol : Q) (a b : option (Q * list Q)) : bool :=
+  match a, b with
+  | Some (w, l), Some (w', l') => close tol w w' && qlist_close tol l l'
   | None, None => true
   | _, _ => false
   end.
 
 (* decidable spec for fixed layout outputs: the sum, and declared column widths honoured up to a common bonus
-   which is zero unless every column has a width and the table is wider than their sum *)
-Definition fixed_spec_b (W spacing : Q) (cols : list decl) (cells : list fcell) (out : Q * list Q) : bool :=
+   which is zero unless the table keeps its width *)
+Definition fixed_spec_b (tol : Q) (W spacing : Q) (cols : list decl) (cells : list fcell) (out : Q * list Q) : bool :=
   let '(W', ws) := out in
   let n := length ws in
   Nat.eqb n (Nat.max (length cols) (spans cells)) &&
-  ((Nat.eqb n 0 && negb (Qle_bool W spacing)) || Qeq_bool W' (qsum ws + spacing * (qnat n + 1))) &&
-  Qle_bool W W' &&
+  ((Nat.eqb n 0 && negb (Qle_bool W spacing)) || close tol W' (qsum ws + spacing * (qnat n + 1))) &&
+  leq tol W W' &&
   (let declared := combine (map (fun d => resolve d W) cols) ws in
    match filter (fun p => negb (is_none (fst p))) declared with
    | [] => true
    | (d0, w0) :: _ =>
        let bonus := w0 - oval d0 in
-       Qle_bool 0 bonus &&
-       forallb (fun p => is_none (fst p) || Qeq_bool (snd p) (oval (fst p) + bonus)) declared &&
-       (Qeq_bool bonus 0 || Qeq_bool W' W)
+       leq tol 0 bonus &&
+       forallb (fun p => is_none (fst p) || close tol (snd p) (oval (fst p) + bonus)) declared &&
+       (close tol bonus 0 || close tol W' W)
    end).
 
-Definition fixed_judge (c : Q * Q * list decl * list fcell * option (Q * list Q)) : nat :=
+Definition fixed_judge_tol (tol : Q) (c : Q * Q * list decl * list fcell * option (Q * list Q)) : nat :=
   let '(W, spacing, cols, cells, out) := c in
-  ((if out_eqb (fixed_layout W spacing cols cells) out then 0 else 1) +
-   (match out with Some o => if fixed_spec_b W spacing cols cells o then 0 else 2 | None => 2 end))%nat.
+  ((if out_close tol (fixed_layout W spacing cols cells) out then 0 else 1) +
+   (match out with Some o => if fixed_spec_b tol W spacing cols cells o then 0 else 2 | None => 2 end))%nat.
+Definition tolr : Q := 1 # 100000.
+Definition fixed_judge := fixed_judge_tol 0.
+Definition fixed_judge_r := fixed_judge_tol tolr.
 
 Definition eps9 : Q := 1 # 1000000000.
 
 (* decidable spec for auto layout outputs, under the oracle sanity hypotheses (checked here too: when they do not
-   hold the spec bit is not raised) *)
+   hold the spec bit is not raised; bit 2 = 4 reports that the oracle hypotheses do not hold) *)
 Definition oracle_ok_b (tmin tmax ths : Q) (cols : list acol) : bool :=
   forallb (fun c => Qle_bool 0 (a_min c) && Qle_bool (a_min c) (a_max c)) cols &&
   Qle_bool (ths + gsum a_min cols) tmin && Qle_bool tmin tmax.
-Definition auto_spec_b (tw : option Q) (avail tmin tmax ths : Q) (cols : list acol) (out : Q * list Q) : bool :=
+Definition auto_spec_b (tol : Q) (tw : option Q) (avail tmin tmax ths : Q) (cols : list acol) (out : Q * list Q) : bool :=
   let '(W, ws) := out in
   let A := W - ths in
-  negb (oracle_ok_b tmin tmax ths cols) ||
-  (Nat.eqb (length ws) (length cols) &&
-   Qle_bool tmin W &&
-   (match tw with None => negb (Qle_bool tmin avail) || Qle_bool W avail | Some w => Qle_bool w W end) &&
-   (match cols with [] => true | _ =>
-      Qle_bool (A * (1 - eps9)) (qsum ws) && Qle_bool (qsum ws) (A * (1 + eps9)) end) &&
-   forallb (fun p => Qle_bool (a_min (fst p) - eps9 * A) (snd p)) (combine cols ws)).
+  Nat.eqb (length ws) (length cols) &&
+  leq tol tmin W &&
+  (match tw with None => negb (Qle_bool tmin avail) || leq tol W avail | Some w => leq tol w W end) &&
+  (match cols with [] => true | _ =>
+     leq tol (A * (1 - eps9)) (qsum ws) && leq tol (qsum ws) (A * (1 + eps9)) end) &&
+  forallb (fun p => leq tol (a_min (fst p) - eps9 * A) (snd p)) (combine cols ws).
 
-Definition auto_judge (c : option Q * (Q * Q * Q * Q) * list acol * option (Q * list Q)) : nat :=
+Definition auto_judge_tol (tol : Q) (c : option Q * (Q * Q * Q * Q) * list acol * option (Q * list Q)) : nat :=
   let '(tw, (avail, tmin, tmax, ths), cols, out) := c in
-  ((if out_eqb (auto_layout eps9 tw avail tmin tmax ths cols) out then 0 else 1) +
-   (match out with Some o => if auto_spec_b tw avail tmin tmax ths cols o then 0 else 2 | None => 2 end))%nat.
+  let ok := oracle_ok_b (tmin + tol) tmax ths cols in
+  ((if out_close tol (auto_layout eps9 tw avail tmin tmax ths cols) out then 0 else 1) +
+   (match out with
+    | Some o => if negb ok || auto_spec_b tol tw avail tmin tmax ths cols o then 0 else 2
+    | None => if ok then 2 else 0
+    end) +
+   (if ok then 0 else 4))%nat.
+Definition auto_judge := auto_judge_tol 0.
+Definition auto_judge_r := auto_judge_tol tolr.
